@@ -63,6 +63,10 @@ class StoreRun:
         self._snaps = []
         self._watch = None
         self._open_count = 0
+        self._task_count = 0
+        self._iter_chunks_seen = 0
+        self.last_tracer = None
+        self.last_exc = None
         self.verify_all = verify_all
 
     # ------------------------------------------------------------------ utils
@@ -213,10 +217,8 @@ class StoreRun:
     # ----------------------------------------------------------------- faults
     def _arm_open_fault(self, fault):
         self._open_count = 0
-        if fault is None or fault.get("kind") != "F4":
-            self.sim.hooks.pop("open", None)
-            return
-        target = fault["open"]
+        self._task_count = 0
+        target = fault["open"] if fault is not None and fault.get("kind") == "F4" else None
 
         def hook(norm, mode):
             k = self._open_count
@@ -282,6 +284,8 @@ class StoreRun:
         sys.last_traceback = None
         sys.last_value = None
         gc.collect()
+        self.last_tracer = tracer
+        self.last_exc = exc
         return exc, tracer
 
     # ------------------------------------------------------------ op: create
@@ -588,6 +592,9 @@ class StoreRun:
                     serrs = oracles.check_struct(fpath, p, p + ": ")
                     if serrs:
                         out.append(("C02", "O-struct", serrs))
+                    else:
+                        self.stat("struct-checked")
+                        self.stat("struct-checked:" + (prop or "?"))
             if not quick:
                 errs = oracles.check_unrelated(fs, fid, fpath)
                 if errs:
@@ -1018,7 +1025,7 @@ def _wrap_iter_fault(cls, fault, run):
     """F2 for merge/coarsen producers: the chunk iterator raises before
     yielding chunk k.  Returns an undo function."""
     orig = cls.__iter__
-    k = fault["chunk"]
+    k = fault["chunk"] if fault is not None and fault.get("kind") == "F2" else None
 
     def faulty(self):
         n = 0
@@ -1027,8 +1034,9 @@ def _wrap_iter_fault(cls, fault, run):
                 run.fired("F2")
                 raise InjectedIOError(5, "injected: input failed before chunk %d" % k)
             n += 1
+            run._iter_chunks_seen = n
             yield ch
-        if k >= n:
+        if k is not None and k >= n:
             run.fired("F2")
             raise InjectedIOError(5, "injected: input failed at exhaustion")
 
@@ -1083,9 +1091,8 @@ def _op_merge(self, op):
         kw["columns"] = list(op["columns"])
     if agg:
         kw["agg"] = dict(agg)
-    undo = None
-    if fault and fault["kind"] == "F2":
-        undo = _wrap_iter_fault(CoolerMerger, fault, self)
+    self._iter_chunks_seen = 0
+    undo = _wrap_iter_fault(CoolerMerger, fault, self)
     fs_old = self.fs.clone()
     dest_before = self.fs.lookup(fid, path) if fid in self.fs.files else None
     held_before = dest_before is not None and dest_before.kind == "group" and dest_before.coll is not None
@@ -1219,26 +1226,24 @@ def _op_coarsen(self, op):
     suri = uri_of(s["path"], self.fpath(s["file"]), s.get("slash", True))
     uri = uri_of(path, self.fpath(fid), op.get("slash", True))
     nproc = int(op.get("nproc", 1))
-    undo = None
-    if fault and fault["kind"] == "F2":
-        undo = _wrap_iter_fault(CoolerCoarsener, fault, self)
-    if fault and fault["kind"] == "F6":
-        target = fault["task"]
-        cnt = [0]
+    self._iter_chunks_seen = 0
+    undo = _wrap_iter_fault(CoolerCoarsener, fault, self)
+    f6_target = fault["task"] if fault and fault["kind"] == "F6" else None
 
-        def hook(jobno, i):
-            n = cnt[0]
-            cnt[0] += 1
-            if n == target:
-                self.fired("F6")
-                raise (MemoryError("injected: worker out of memory") if fault.get("exc") == "MemoryError"
-                       else InjectedIOError(5, "injected: read error in worker"))
-        self.sim.hooks["task"] = hook
+    def task_hook(jobno, i):
+        n = self._task_count
+        self._task_count += 1
+        if n == f6_target:
+            self.fired("F6")
+            raise (MemoryError("injected: worker out of memory") if fault.get("exc") == "MemoryError"
+                   else InjectedIOError(5, "injected: read error in worker"))
+    task_hook_on = True
     fs_old = self.fs.clone()
     dest_before = self.fs.lookup(fid, path) if fid in self.fs.files else None
     held_before = dest_before is not None and dest_before.kind == "group" and dest_before.coll is not None
     self._arm_open_fault(fault)
     self._arm_snapshots(fid)
+    self.sim.hooks["task"] = task_hook
     if op.get("cli"):
         from click.testing import CliRunner
         from cooler.cli import cli
@@ -1522,8 +1527,16 @@ def _op_scool(self, op):
         else:
             cands = [build(j, order[j] if j < len(order) else None) for j in range(len(order), -1, -1)]
             cands += [build(j) for j in range(len(order), -1, -1)] + [fs_old]
-        self._resolve(cands, [fid], fault, (fid, "/cells/" + fault_cell.split("/")[-1]), False)
+            bare = fs_old.clone()
+            if mode == "w" or fid not in bare.files:
+                bare.files[fid] = Node()
+            bare.files[fid].dirty = True
+            cands.append(bare)
+        dest = (fid, "/cells/" + fault_cell.split("/")[-1]) if fault_cell else None
+        self._resolve(cands, [fid], fault, dest, False)
         # cells < k intact and still listed: C17 under a later cell's failure
+        if fault_cell is None or k == 0:
+            return exc, tracer
         try:
             with warnings.catch_warnings():
                 warnings.simplefilter("ignore")
@@ -1706,3 +1719,77 @@ StoreRun.op_rename = _op_rename
 StoreRun.op_hold = _op_hold
 StoreRun.op_intify = _op_intify
 StoreRun.op_restart = _op_restart
+
+
+# ===========================================================================
+# Text loading through the command line (`cooler load -f coo`)
+# ===========================================================================
+def _op_cliload(self, op):
+    from click.testing import CliRunner
+    from cooler.cli import cli
+
+    fid, path, mode = op["file"], op["path"], op.get("mode", "a")
+    names, lengths, bm = self._layout(op)
+    if fid in self.fs.files and path != "/":
+        parent = "/" + "/".join(split(path)[:-1])
+        if self.fs.canonical(fid, parent, partial=True) is None:
+            raise Skip("destination parent behind an external link")
+    rec = op["records"]  # {"bin1_id": [...], "bin2_id": [...], "count": [...]} unique pixels, any order
+    px = pixel_frame(rec, {"count": _dt("int32")}).sort_values(["bin1_id", "bin2_id"]).reset_index(drop=True)
+    exp = Coll(names, lengths, bm, px, op["symmetric"], None, None)
+    tag = "in%d" % self.opidx
+    txt = os.path.join(self.S, tag + ".coo.txt")
+    with open(txt, "w") as f:
+        for i, j, v in zip(rec["bin1_id"], rec["bin2_id"], rec["count"]):
+            f.write("%d\t%d\t%d\n" % (i, j, v))
+    if op.get("binspec") == "chromsizes":
+        cs = os.path.join(self.S, tag + ".chrom.sizes")
+        with open(cs, "w") as f:
+            for n, L in zip(names, lengths):
+                f.write("%s\t%d\n" % (n, L))
+        bins_arg = "%s:%d" % (cs, op["binsize"])
+    else:
+        bed = os.path.join(self.S, tag + ".bins.bed")
+        with open(bed, "w") as f:
+            for c, s, e in zip(bm["chrom"].values, bm["start"].values, bm["end"].values):
+                f.write("%s\t%d\t%d\n" % (names[c], s, e))
+        bins_arg = bed
+    uri = uri_of(path, self.fpath(fid), op.get("slash", True))
+    args = ["load", "-f", "coo", "--chunksize", str(op["chunksize"]), "--max-merge", str(op["max_merge"])]
+    if op.get("mergebuf"):
+        args += ["--mergebuf", str(op["mergebuf"])]
+    if not op["symmetric"]:
+        args.append("--no-symmetric-upper")
+    if mode == "a":
+        args.append("--append")
+    args += [bins_arg, txt, uri]
+
+    def call():
+        r = CliRunner().invoke(cli, args, catch_exceptions=False)
+        if r.exit_code != 0:
+            raise RuntimeError("cli exit %s: %s" % (r.exit_code, (r.output or "")[-300:]))
+
+    fs_old = self.fs.clone()
+    dest_before = self.fs.lookup(fid, path) if fid in self.fs.files else None
+    held_before = dest_before is not None and dest_before.kind == "group" and dest_before.coll is not None
+    self._arm_open_fault(None)
+    self._arm_snapshots(fid)
+    exc, tracer = self._call(call, None)
+    for p in (txt,):
+        try:
+            os.remove(p)
+        except OSError:
+            pass
+    left = sorted(glob.glob(os.path.join(self.S, "*.multi.cool")))
+    if left and exc is None:
+        self.violate("C06", "O-temp", ["temporary file(s) outlive a successful `cooler load`: %d" % len(left)])
+    for p in left:
+        try:
+            os.remove(p)
+        except OSError:
+            pass
+    self._finish_producer(op, "C06", exc, exp, None, False, fs_old, fid, path, mode, held_before, early_refusal=True)
+    return exc, tracer
+
+
+StoreRun.op_cliload = _op_cliload
